@@ -385,6 +385,36 @@ func (l *lemmas) discharge(s *Site) (string, bool) {
 				}
 			}
 			// invoke on the Profile of a register entry
+			// invoke on a codec mode that reached this function as an argument:
+			// every unproved context names a shared mode variable as the value
+			modeNames := map[string]bool{}
+			for _, gi := range w.Globals() {
+				t := gi.G.Type().(*types.Pointer).Elem().String()
+				if t == pCBOR+".EncMode" || t == pCBOR+".DecMode" {
+					modeNames["g:"+globalName(gi.G)] = true
+				}
+			}
+			allModes := len(s.UnsafeWhat) > 0
+			for what := range s.UnsafeWhat {
+				v := what
+				if i := strings.LastIndex(v, "."); i > 0 && !strings.Contains(v[i:], "/") {
+					// strip the method name
+					if j := strings.Index(v, "@"); j > 0 && j < i {
+						v = v[:j]
+					} else {
+						v = v[:i]
+					}
+				}
+				if j := strings.Index(v, "@"); j > 0 {
+					v = v[:j]
+				}
+				if !modeNames[v] {
+					allModes = false
+				}
+			}
+			if allModes && l.modes() {
+				return "the value is a shared codec mode handed down as an argument: non-nil because the initialiser panics otherwise", true
+			}
 			isEntry := func(what string) bool {
 				return strings.Contains(what, "lookup(g:"+l.regName()) || strings.Contains(what, "v:next#") || strings.Contains(what, "(entry)")
 			}
@@ -438,6 +468,14 @@ func (l *lemmas) modes() bool {
 			continue
 		}
 		ex, isEx := gi.InitVal.(*ssa.Extract)
+		if !isEx {
+			// the other accepted form: mode = must(constructor()) with an in-repo
+			// helper that returns its first argument and panics unless its
+			// second (the error) is nil
+			if call, isCall := gi.InitVal.(*ssa.Call); isCall && mustHelperCall(w, call) {
+				continue
+			}
+		}
 		if !isEx || ex.Index != 0 {
 			ok = false
 			continue
@@ -456,7 +494,11 @@ func (l *lemmas) modes() bool {
 			}
 		}
 		if errG == nil || !initPanicsOn(w, errG) {
-			ok = false
+			// third form: the error is a local of the (init-time) writer and is
+			// tested there, the non-nil edge ending in a panic
+			if !localErrPanics(ex) {
+				ok = false
+			}
 		}
 		// the constructor returns a non-nil mode when err is nil (model: EncMode()/DecMode())
 		if call, isCall := ex.Tuple.(*ssa.Call); isCall {
@@ -472,6 +514,89 @@ func (l *lemmas) modes() bool {
 	l.r.Check(ok, "C05-lemma", "codec-modes-non-nil", "-", "premises hold: init-only modes, paired error checked by a panicking init", "premise fails: a shared codec mode may be nil when used")
 	l.modesNonNil = &ok
 	return ok
+}
+
+// localErrPanics: the error result of the tuple ex comes from is tested
+// against nil in the same function and the non-nil edge ends in a panic.
+func localErrPanics(ex *ssa.Extract) bool {
+	for _, ref := range *ex.Tuple.Referrers() {
+		e1, ok := ref.(*ssa.Extract)
+		if !ok || e1.Index != 1 {
+			continue
+		}
+		// the error may be spilled to a local (closures): follow stores and loads
+		vals := []ssa.Value{e1}
+		for _, r2 := range *e1.Referrers() {
+			if st, ok := r2.(*ssa.Store); ok {
+				if al, ok := st.Addr.(*ssa.Alloc); ok {
+					for _, r3 := range *al.Referrers() {
+						if ld, ok := r3.(*ssa.UnOp); ok && ld.Op == token.MUL && ld.Block() == st.Block() {
+							vals = append(vals, ld)
+						}
+					}
+				}
+			}
+		}
+		for _, v := range vals {
+			for _, r2 := range *v.Referrers() {
+				bo, ok := r2.(*ssa.BinOp)
+				if !ok || bo.Op != token.NEQ || !(isNilConst(bo.X) || isNilConst(bo.Y)) {
+					continue
+				}
+				for _, r3 := range *bo.Referrers() {
+					if ifi, ok := r3.(*ssa.If); ok {
+						t := ifi.Block().Succs[0]
+						if _, isPanic := t.Instrs[len(t.Instrs)-1].(*ssa.Panic); isPanic {
+							return true
+						}
+					}
+				}
+			}
+		}
+	}
+	return false
+}
+
+// mustHelperCall: call is h(x, err) with (x, err) the two results of one
+// constructor call (the library's EncMode()/DecMode() or an in-repo wrapper
+// returning them unchanged), and h returns its first parameter only on paths
+// where its second is nil (it panics otherwise).
+func mustHelperCall(w *World, call *ssa.Call) bool {
+	h := call.Call.StaticCallee()
+	if h == nil || h.Blocks == nil || !w.InRepo(h) || len(h.Params) != 2 || len(call.Call.Args) != 2 {
+		return false
+	}
+	e0, ok0 := call.Call.Args[0].(*ssa.Extract)
+	e1, ok1 := call.Call.Args[1].(*ssa.Extract)
+	if !ok0 || !ok1 || e0.Tuple != e1.Tuple || e0.Index != 0 || e1.Index != 1 {
+		return false
+	}
+	ctor, ok := e0.Tuple.(*ssa.Call)
+	if !ok {
+		return false
+	}
+	if f := ctor.Call.StaticCallee(); f != nil && w.InRepo(f) {
+		if !returnsCallResults(f, "EncMode", "DecMode") {
+			return false
+		}
+	} else {
+		n := calleeName(&ctor.Call)
+		if !strings.HasSuffix(n, "Options).EncMode") && !strings.HasSuffix(n, "Options).DecMode") {
+			return false
+		}
+	}
+	rets := 0
+	for _, b := range h.Blocks {
+		ret, ok := b.Instrs[len(b.Instrs)-1].(*ssa.Return)
+		if !ok {
+			continue
+		}
+		rets++
+		if len(ret.Results) != 1 || ret.Results[0] != ssa.Value(h.Params[0]) || !knownNilAt(h.Params[1], b) {
+			return false
+		}
+	}
+	return rets > 0
 }
 
 func returnsCallResults(f *ssa.Function, names ...string) bool {
@@ -564,34 +689,7 @@ func (w *World) registerEntriesNonNil() bool {
 						continue
 					}
 					n++
-					// value: load of a local composite; find the store to its Profile field
-					good := false
-					if ld, isLd := mu.Value.(*ssa.UnOp); isLd {
-						if al, isAl := ld.X.(*ssa.Alloc); isAl {
-							for _, ref := range *al.Referrers() {
-								fa, isFA := ref.(*ssa.FieldAddr)
-								if !isFA {
-									continue
-								}
-								st := fa.X.Type().Underlying().(*types.Pointer).Elem().Underlying().(*types.Struct)
-								if !types.IsInterface(st.Field(fa.Field).Type()) {
-									continue
-								}
-								for _, r2 := range *fa.Referrers() {
-									if sto, isSt := r2.(*ssa.Store); isSt {
-										// an invoke on the stored value dominating the update
-										for _, b2 := range fn.Blocks {
-											for _, in2 := range b2.Instrs {
-												if c, isC := in2.(*ssa.Call); isC && c.Call.IsInvoke() && c.Call.Value == sto.Val && (b2.Dominates(b) || b2 == b) {
-													good = true
-												}
-											}
-										}
-									}
-								}
-							}
-						}
-					}
+					good := w.entryProfileInvoked(fn, mu.Value, b, 0)
 					if !good {
 						ok = false
 					}
@@ -716,3 +814,66 @@ func inputIndependent(w *World, fn *ssa.Function) bool {
 }
 
 var _ = sort.Strings
+
+// entryProfileInvoked: v, used in block b of fn, is a register entry (a load
+// of a local composite) whose interface-typed field was stored from a value
+// that an invoke dominating b was made on — or a by-value parameter of an
+// unexported store helper, for which the same holds at every call site.
+func (w *World) entryProfileInvoked(fn *ssa.Function, v ssa.Value, b *ssa.BasicBlock, depth int) bool {
+	if par, isPar := v.(*ssa.Parameter); isPar {
+		if depth > 3 || ssaExported(fn) {
+			return false
+		}
+		node := w.CallGraph().Nodes[fn]
+		if node == nil || len(node.In) == 0 {
+			return false
+		}
+		idx := -1
+		for i, p := range fn.Params {
+			if p == par {
+				idx = i
+			}
+		}
+		for _, e := range node.In {
+			if e.Site == nil || e.Site.Common().StaticCallee() != fn || idx < 0 || idx >= len(e.Site.Common().Args) || e.Caller.Func == nil {
+				return false
+			}
+			if !w.entryProfileInvoked(e.Caller.Func, e.Site.Common().Args[idx], e.Site.Block(), depth+1) {
+				return false
+			}
+		}
+		return true
+	}
+	ld, isLd := v.(*ssa.UnOp)
+	if !isLd {
+		return false
+	}
+	al, isAl := ld.X.(*ssa.Alloc)
+	if !isAl {
+		return false
+	}
+	good := false
+	for _, ref := range *al.Referrers() {
+		fa, isFA := ref.(*ssa.FieldAddr)
+		if !isFA {
+			continue
+		}
+		st := fa.X.Type().Underlying().(*types.Pointer).Elem().Underlying().(*types.Struct)
+		if !types.IsInterface(st.Field(fa.Field).Type()) {
+			continue
+		}
+		for _, r2 := range *fa.Referrers() {
+			if sto, isSt := r2.(*ssa.Store); isSt {
+				// an invoke on the stored value dominating the update
+				for _, b2 := range fn.Blocks {
+					for _, in2 := range b2.Instrs {
+						if c, isC := in2.(*ssa.Call); isC && c.Call.IsInvoke() && c.Call.Value == sto.Val && (b2.Dominates(b) || b2 == b) {
+							good = true
+						}
+					}
+				}
+			}
+		}
+	}
+	return good
+}
